@@ -367,6 +367,15 @@ class SStr:
     def __reduce__(self):
         raise Unsupported("pickling a symbolic string")
 
+    def __getattr__(self, name):
+        # str methods for duck-typed (uninstrumented) callers, e.g. harness code
+        f = STR_METHODS.get(name)
+        if f is None or name.startswith("__"):
+            raise AttributeError(name)
+        if name == "join":
+            return lambda parts: join(self, parts)
+        return lambda *a, **k: f(self, *a, **k)
+
 
 class SBytes(SStr):
     __slots__ = ()
